@@ -13,7 +13,7 @@ pub struct C11Oracle {
 impl StepOracle for C11Oracle {
     fn pre_step(&mut self, w: &mut World, step: &Step, intent: &Intent, _gs: &GenState) {
         self.reference = None;
-        if let Intent::Route { ops, delivered, minimum: Some(_), receiver } = intent {
+        if let Intent::Route { ops, delivered, minimum: Some(_), receiver, .. } = intent {
             // D: what the same route delivers without minimum_receive, on a fork of this very state
             let mut f = w.fork();
             let rec = f.exec(without_minimum(step));
@@ -22,7 +22,7 @@ impl StepOracle for C11Oracle {
     }
     fn on_step(&mut self, cx: &mut StepCtx, classes: &mut Vec<&'static str>) -> Verdict {
         let (ops, delivered, minimum, receiver) = match cx.intent {
-            Intent::Route { ops, delivered, minimum, receiver } => (ops, delivered, minimum, receiver),
+            Intent::Route { ops, delivered, minimum, receiver, .. } => (ops, delivered, minimum, receiver),
             _ => return Verdict::Pass,
         };
         let ok = cx.rec.outcome.is_ok();
